@@ -13,6 +13,13 @@ CHECKS = {
         note="Trusts numpy/ml_dtypes astype as the model of ONNX Cast for in-range values; 64-bit and complex sources are sampled, not enumerated; NaN payloads are not distinguished.",
         technique="exhaustive enumeration + Hypothesis property test against a numpy reference model (differential vs ORT)",
     ),
+    "C02": dict(
+        category="exploration",
+        text="Differential testing of the real optimizer pipeline, one pass at a time, on Hypothesis-generated ONNX graphs built from pattern-seeded neighbourhoods of every rewrite rule plus free steps (symbolic dims, generated output sets, Loop/If captures, tensor side operands), and on raw lowered models of generated JAX programs with intermediates promoted to outputs. Oracle: ORT(raw) == ORT(after pass k) in count, order, dtype, runtime shape and values, model stays checker-valid/loadable, declared output annotations stay consistent. Failures are bucketed by (pass, kind, flags), shrunk structurally and replayed from a committed corpus of former failures.",
+        design_ref="DESIGN.md §3 C02",
+        note="ORT CPU is trusted as the executable semantics of both sides; graphs are bounded (<= ~25 nodes, dims <= 5, ranks <= 4); Dropout with dynamic training mode is excluded (random).",
+        technique="Hypothesis grammar-based graph generation + per-pass differential execution in ONNX Runtime, structural shrinking, regression corpus",
+    ),
 }
 
 NOT_APPLICABLE = []
